@@ -625,6 +625,37 @@ unsafe fn ftruncate_common(fd: c_int, len: off_t) -> c_int {
     }
 }
 
+/// In-kernel copies (what `std::fs::copy` tries first) would move bytes into a
+/// tracked file behind the simulated disk's back: no crash point inside the copy,
+/// no durable-watermark bookkeeping. Under a run context both calls report "not
+/// supported", which makes std fall back to a read/write loop the disk sees.
+#[no_mangle]
+pub unsafe extern "C" fn copy_file_range(fd_in: c_int, off_in: *mut libc::off64_t, fd_out: c_int, off_out: *mut libc::off64_t, len: libc::size_t, flags: libc::c_uint) -> libc::ssize_t {
+    if with_ctx(|_| ()).is_some() {
+        *libc::__errno_location() = libc::ENOSYS;
+        return -1;
+    }
+    libc::syscall(libc::SYS_copy_file_range, fd_in as c_long, off_in, fd_out as c_long, off_out, len, flags as c_long) as libc::ssize_t
+}
+
+#[no_mangle]
+pub unsafe extern "C" fn sendfile(out_fd: c_int, in_fd: c_int, offset: *mut off_t, count: libc::size_t) -> libc::ssize_t {
+    if with_ctx(|_| ()).is_some() {
+        *libc::__errno_location() = libc::EINVAL;
+        return -1;
+    }
+    libc::syscall(libc::SYS_sendfile, out_fd as c_long, in_fd as c_long, offset, count) as libc::ssize_t
+}
+
+#[no_mangle]
+pub unsafe extern "C" fn sendfile64(out_fd: c_int, in_fd: c_int, offset: *mut libc::off64_t, count: libc::size_t) -> libc::ssize_t {
+    if with_ctx(|_| ()).is_some() {
+        *libc::__errno_location() = libc::EINVAL;
+        return -1;
+    }
+    libc::syscall(libc::SYS_sendfile, out_fd as c_long, in_fd as c_long, offset, count) as libc::ssize_t
+}
+
 #[no_mangle]
 pub unsafe extern "C" fn ftruncate(fd: c_int, len: off_t) -> c_int {
     ftruncate_common(fd, len)
